@@ -18,6 +18,9 @@
      member i as @include has returned Ok, the stand-off file of member i holds the member's content
      (alone the call writes pending content before it returns); an export of a resource's text to
      another place (to_txt_file) leaves the resource's own stand-off state alone;
+   - a call that is refused (ToJson::to_json_string with a Config whose dataformat is not JSON) returns
+     Err and leaves nothing behind: whatever runs next on that thread returns what it returns alone;
+     saving a store in the CBOR format writes one file and does not concern the stand-off files;
    - iterating, searching, querying and the parallel adaptors serialise nothing
      (their own result is compared with the solo result directly by the harness). *)
 From Coq Require Import List Arith Bool.
@@ -44,6 +47,9 @@ Definition spec_out (mem : list fkind) (o : op) : list tok :=
   | OpStoreTwice => store_form 0 mem ++ t_sep :: store_form 0 mem ++ [t_sep]
   | OpExport _ => []
   | OpSaveTxt _ => []
+  | OpSaveCbor => []
+  | OpRefused _ => [t_err]
+  | OpRefusedThenStore _ => t_err :: t_sep :: store_form 0 mem ++ [t_sep]
   end.
 
 (* Stores with a stand-off file that cannot be written.  A call that has to rewrite such a file
@@ -68,6 +74,7 @@ Definition spec_result (mem : list fkind) (chg : list bool) (o : op) : list tok 
   | OpMemberThenStore i => t_inline i :: t_sep :: call_store mem chg ++ [t_sep]
   | OpStoreTwice => call_store mem chg ++ t_sep :: call_store mem chg ++ [t_sep]
   | OpSaveTxt i => match kind_of mem i with TxtBroken => [t_err] | _ => [] end
+  | OpRefusedThenStore _ => t_err :: t_sep :: call_store mem chg ++ [t_sep]
   | _ => spec_out mem o
   end.
 
